@@ -7,6 +7,7 @@ import QG.Lemmas.FrameInvariant
 import QG.Lemmas.LayerSim
 import QG.Lemmas.GridSim
 import QG.Lemmas.LayerBridge
+import QG.Lemmas.GridBridge
 import QG.Props.C01
 
 /-!
@@ -678,6 +679,82 @@ theorem noise_free_pipeline_grid (n d : Nat) (hn : 0 < n) (data : List (Op ℝ))
     have := hwf op hop
     cases op <;> first | exact this | trivial
   exact noise_free_run_spec_grid n d hn _ (wf_callsLayered n data hwf) (rowOrdered_callsLayered n data hl).1 st' h ψ0 x
+
+/-! ### the grid class composed with C01: `Circuit.statevector` multiplies the `kron` of every column, first column
+first — which is `StandardBackend.statevector` on the list of columns (`QG.Lemmas.GridBridge`) -/
+
+section GridBackend
+open QG.Lemmas.LayerSim QG.Lemmas.GridSim QG.Lemmas.GridBridge QG.Lemmas.LayerBridge QG.Model.Backend QG.Lemmas.Backend
+open Classical
+
+/-- the used columns of a grid object with every token replaced by the matrix of the noise-free gate set -/
+noncomputable def columnsG (st : GridState ℝ) : List (Layer (Mat ℂ)) := columnsOf frameSys st
+
+/-- a pipeline run on a grid leaves the two machines related, the grid in shape and the last column full -/
+private theorem grid_run_facts (n d : Nat) (hn : 0 < n) (data : List (Op ℝ)) (hwf : ∀ op ∈ data, LWF' n op)
+    (st' : GridState ℝ) (h : foldE (GridState.step P) (GridState.init P n d) (callsLayered n data) = .ok st') :
+    ∃ b', RelG n d st' b' ∧ ShapeG n st' ∧ st'.s = n := by
+  have hl : ∀ op ∈ data, LWF n op := by
+    intro op hop
+    have := hwf op hop
+    cases op <;> first | exact this | trivial
+  obtain ⟨hrow, hend⟩ := rowOrdered_callsLayered n data hl
+  have hrow' : RowOrderedG n (GridState.init P n d).s (callsLayered n data) :=
+    rowOrderedG_of n _ 0 (by
+      have : effS n 0 = 0 := by unfold effS; split <;> omega
+      rw [this]; exact hrow)
+  obtain ⟨b', _, hr, hsh, hs⟩ := run_shapeG_end P n d _ (GridState.init P n d) st' (BinState.init P n)
+    (relG_init P n d hn) (shapeG_init P n d) hrow' h
+  exact ⟨b', hr, hsh, by rw [hs]; exact endSG_callsLayered n hn data hend⟩
+
+/-- the columns of any pipeline run on a grid are in C01's domain (well-formed layers of width `n`, at least one) -/
+theorem grid_columns_admissible (n d : Nat) (hn : 0 < n) (data : List (Op ℝ)) (hwf : ∀ op ∈ data, LWF' n op)
+    (st' : GridState ℝ) (h : foldE (GridState.step P) (GridState.init P n d) (callsLayered n data) = .ok st')
+    (ψ : Array ℂ) (hψ : ψ.size = 2 ^ n) :
+    QG.C01.Admissible n (columnsG st') ψ := by
+  obtain ⟨b', hr, hsh, hs⟩ := grid_run_facts n d hn data hwf st' h
+  obtain ⟨hw, _⟩ := grid_bridge frameSys n d st' b' hr hsh hs
+  refine ⟨hn, ?_, ?_, hψ⟩
+  · simp [columnsG, columnsOf]
+  · intro l hl
+    obtain ⟨h1, h2⟩ := hw l hl
+    simp only [Layer.wf, Bool.and_eq_true, beq_iff_eq]
+    exact ⟨wfBlocks_of_wfi l h1, h2⟩
+
+/-- **C03 on the columns, as C01 specifies a layered product**: the Kronecker product of the columns (first column
+first), applied to any input vector, has at every flat index the modulus of the ideal circuit's amplitude -/
+theorem noise_free_grid_columns_spec (n d : Nat) (hn : 0 < n) (data : List (Op ℝ)) (hwf : ∀ op ∈ data, LWF' n op)
+    (st' : GridState ℝ) (h : foldE (GridState.step P) (GridState.init P n d) (callsLayered n data) = .ok st')
+    (ψ : Array ℂ) (i : Nat) (hi : i < 2 ^ n) :
+    ‖vfn (specApply n (columnsG st') ψ) i‖ =
+      ‖flatOf (trueOps n (callsLayered n data) (vecOf ψ.toList)) i‖ := by
+  obtain ⟨b', hr, hsh, hs⟩ := grid_run_facts n d hn data hwf st' h
+  obtain ⟨hw, hitems⟩ := grid_bridge frameSys n d st' b' hr hsh hs
+  rw [vfn_specApply n _ ψ i hi]
+  have h1 := sem_layers (columnsG st') hw (vecOf ψ.toList : State ℂ n) i hi
+  have h2 : specFn n (columnsG st') (flatOf (vecOf ψ.toList : State ℂ n)) i = specFn n (columnsG st') (vfn ψ) i :=
+    specFn_congr' n _ _ _ (fun j hj => flatOf_vecOf ψ j hj) i hi
+  rw [← h2, ← h1]
+  have h3 := noise_free_pipeline_grid n d hn data hwf st' h (vecOf ψ.toList) (bitsFn n i)
+  unfold simOpG at h3
+  show ‖((gateAlgebra ℂ n).sem (layersItems (columnsG st')) (vecOf ψ.toList)) (bitsFn n i)‖ = _
+  rw [show layersItems (columnsG st') = (gridItems st').map (interp frameSys) from hitems]
+  exact h3
+
+/-- **`Circuit.statevector`** (the product of the columns' Kronecker products applied to `psi0`, i.e. C01's model of the
+explicit propagator product run on the list of columns): on the grid of any noise-free pipeline run that returns
+normally it raises nothing and every amplitude has the modulus of the ideal circuit's.  The run fills exactly the
+columns `0 .. j`; that these are all `depth` columns of the object (`j + 1 = depth`, which is how the simulator sizes
+the grid) is observed on the real class by C01's check (section G), not proved here. -/
+theorem noise_free_grid_statevector (n d : Nat) (hn : 0 < n) (data : List (Op ℝ)) (hwf : ∀ op ∈ data, LWF' n op)
+    (st' : GridState ℝ) (h : foldE (GridState.step P) (GridState.init P n d) (callsLayered n data) = .ok st')
+    (ψ : Array ℂ) (hψ : ψ.size = 2 ^ n) :
+    ∃ out, standard (dictOf ℂ) n (columnsG st') ψ = .ok out ∧
+      ∀ i < 2 ^ n, ‖vfn out i‖ = ‖flatOf (trueOps n (callsLayered n data) (vecOf ψ.toList)) i‖ :=
+  ⟨_, QG.C01.standard_spec n _ ψ (grid_columns_admissible n d hn data hwf st' h ψ hψ),
+    fun i hi => noise_free_grid_columns_spec n d hn data hwf st' h ψ i hi⟩
+
+end GridBackend
 
 open QG.Lemmas.LayerSim QG.Lemmas.GridSim in
 /-- non-vacuity: the same circuit on a grid of the depth the simulator computes (`len(data) - n_rz + 1 = 3`); a grid of
